@@ -52,6 +52,11 @@ type callTokenData struct {
 	SchemaIPC []byte // serialized output schema for dynamic methods; nil for static
 	StreamID  string // stable across init/continuations of one stream call
 	Method    string // the stream method whose /init minted this call
+	// InputSchemaIPC is the serialized input schema the init handler chose at
+	// run time, for exchange methods that register none (dynamic methods);
+	// nil otherwise. Continuations cast their input against it, as the pipe
+	// transport does against StreamResult.InputSchema.
+	InputSchemaIPC []byte
 }
 
 // cursorTokenData is the advancing half: re-minted every turn under
@@ -65,9 +70,10 @@ type cursorTokenData struct {
 // resolvedCall is what an authenticated CallID resolves to — either from the
 // cache or by opening the client's call token.
 type resolvedCall struct {
-	SchemaIPC []byte
-	StreamID  string
-	Method    string
+	SchemaIPC      []byte
+	StreamID       string
+	Method         string
+	InputSchemaIPC []byte
 }
 
 // defaultCallStateCacheEntries bounds the per-process call cache.
@@ -453,7 +459,7 @@ func normalizeTokenKey(key []byte) []byte {
 // route accepts one (handleStreamExchange requires the minting method to match
 // the route); /init mints through packCallTokenFor.
 func (h *HttpServer) packCallToken(callID string, outputSchema *arrow.Schema, auth *AuthContext, streamID string) ([]byte, error) {
-	return h.packCallTokenFor("", callID, outputSchema, auth, streamID)
+	return h.packCallTokenFor("", callID, outputSchema, nil, auth, streamID)
 }
 
 // packCallTokenFor seals the half of a stream's state that is fixed for the
@@ -464,7 +470,7 @@ func (h *HttpServer) packCallToken(callID string, outputSchema *arrow.Schema, au
 // two methods may share a state type, and a producer's state means nothing
 // to an exchange method. The cursor is bound to this token by CallID, so
 // naming the method here binds every cursor of the call to it as well.
-func (h *HttpServer) packCallTokenFor(method, callID string, outputSchema *arrow.Schema, auth *AuthContext, streamID string) ([]byte, error) {
+func (h *HttpServer) packCallTokenFor(method, callID string, outputSchema, runtimeInputSchema *arrow.Schema, auth *AuthContext, streamID string) ([]byte, error) {
 	data := callTokenData{
 		CreatedAt: time.Now().Unix(),
 		CallID:    callID,
@@ -474,13 +480,16 @@ func (h *HttpServer) packCallTokenFor(method, callID string, outputSchema *arrow
 	if outputSchema != nil {
 		data.SchemaIPC = serializeSchema(outputSchema)
 	}
+	if runtimeInputSchema != nil {
+		data.InputSchemaIPC = serializeSchema(runtimeInputSchema)
+	}
 	token, err := h.sealToken(callTokenVersion, &data, callTokenAad(auth))
 	if err != nil {
 		return nil, err
 	}
 	// Warm the cache with the values we already hold, so this stream's first
 	// continuation does not have to open the token it was just handed.
-	h.callStates.put(callID, auth, data.CreatedAt, &resolvedCall{SchemaIPC: data.SchemaIPC, StreamID: streamID, Method: method})
+	h.callStates.put(callID, auth, data.CreatedAt, &resolvedCall{SchemaIPC: data.SchemaIPC, StreamID: streamID, Method: method, InputSchemaIPC: data.InputSchemaIPC})
 	return token, nil
 }
 
@@ -544,7 +553,7 @@ func (h *HttpServer) resolveCall(cursor *cursorTokenData, callToken []byte, auth
 		return nil, &RpcError{Type: "RuntimeError", Message: "Malformed state token"}
 	}
 
-	got := &resolvedCall{SchemaIPC: data.SchemaIPC, StreamID: data.StreamID, Method: data.Method}
+	got := &resolvedCall{SchemaIPC: data.SchemaIPC, StreamID: data.StreamID, Method: data.Method, InputSchemaIPC: data.InputSchemaIPC}
 	h.callStates.put(cursor.CallID, auth, data.CreatedAt, got)
 	return got, nil
 }
